@@ -28,7 +28,7 @@ theorem schema_up_any (g : Globals) (hg : g.dialect = .mysql) (rc : Bool)
         ∀ s ∈ tbN.idxs, ∀ o ∈ tbO.idxs, o.name = s.name → o ≠ s → ∃ c ∈ o.cols, c ∉ dc) ∧
       (∀ s ∈ tbN.fks, ∀ o ∈ tbO.fks, s.name = o.name → s = o)) :
     ∃ up, modelUp g old new = .ok up ∧ c01 g.ignoreOrder dbO dbN up false = .ok () := by
-  obtain ⟨d, out, hd, hU, ⟨db', he, heq⟩, hj⟩ := schema_spec_up (g.ign false) hg rfl rc old new dbO dbN ho hn hpo hpn heo hen
+  obtain ⟨d, out, hd, hU, ⟨db', he, heq, _⟩, hj⟩ := schema_spec_up (g.ign false) hg rfl rc old new dbO dbN ho hn hpo hpn heo hen
     hdef hboth
   have hup0 : modelUp (g.ign false) old new = .ok out.flatten := by
     unfold modelUp
